@@ -107,8 +107,17 @@ def judge_report(case) -> Verdict:
         raise Invalid()
     if any(not G.addr_is_native(r[s_], platform) for r in recs for s_ in ("src", "dst")):
         raise Invalid()
-    want = model_report(recs, lines, skip)
     before = acl.line
+    # earlier queries with OTHER skip lists on the same object must not influence this one
+    for k in case.get("warmup") or []:
+        other = A.SKIPS[k % len(A.SKIPS)]
+        got_o = acl.shading(other)
+        want_o = model_report(recs, lines, other)
+        if got_o != want_o:
+            v.fail("report:shading-differs-from-spec:repeated-query", {"acl": before, "skip": other, "library": got_o,
+                                                                        "spec": want_o, "earlier": case.get("warmup")})
+            return v
+    want = model_report(recs, lines, skip)
     got = acl.shading(skip)
     if got != want:
         v.fail("report:shading-differs-from-spec", {"acl": before, "skip": skip, "library": got, "spec": want})
@@ -143,7 +152,8 @@ def report_st(draw, tier):
     # native spelling: the report is keyed by rendered text, which is only stable for native input
     # (a foreign spelling such as 0.0.0.0/0 on IOS converges after one re-parse, see C06)
     recs = [G.to_native(r, platform) for r in recs]
-    return {"aces": recs, "platform": platform, "skip": draw(st.sampled_from(A.SKIPS))}
+    return {"aces": recs, "platform": platform, "skip": draw(st.sampled_from(A.SKIPS)),
+            "warmup": draw(st.lists(st.integers(0, 4), max_size=3))}
 
 
 SUBS = [
